@@ -19,10 +19,14 @@ U64 = (1 << 64) - 1
 
 
 class Key:
-    """A governed key: which reads denote it and how a comparison with a constant evaluates for value v."""
+    """A governed key: which reads denote it and how a comparison with a constant evaluates for value v.
 
-    def __init__(self, name):
+    upward=True (integers only) gives the semantics of a domain that keeps a single upper bound: an outcome of a
+    condition is possible for v if it is possible for some v' >= v (a larger value "carries" v along)."""
+
+    def __init__(self, name, upward=False):
         self.name = name
+        self.upward = upward
 
     def is_read(self, sym):
         n = self.name
@@ -83,18 +87,54 @@ def ev(sym, key, v):
             if c is None:
                 return None
             x = key.read_value(a, v)
-            return compare(op, x, c)
+            return _cmp_key(key, op, x, c, True)
         if kb and not ka:
             c = const_value(a)
             if c is None:
                 return None
             x = key.read_value(b, v)
-            return compare(op, c, x)
+            return _cmp_key(key, op, x, c, False)
         return None
     if t == "read" and key.name == "Kind" and sym[1] == "self" and sym[2] == "ApplicationID":
         # documented shape: `txn ApplicationID` used directly as a condition
         return key.read_value(sym, v) != 0
     return None
+
+
+def _cmp_key(key, op, x, c, field_first):
+    """One comparison of the key's value x with constant c.  For an 'upward' key every single comparison is judged
+    on its own for some x' >= x (non-relational, like a domain that keeps one upper bound per program point)."""
+    def one(xx):
+        return compare(op, xx, c) if field_first else compare(op, c, xx)
+    if not getattr(key, "upward", False) or isinstance(x, tuple) or isinstance(c, tuple):
+        return one(x)
+    res = set()
+    for xx in (x, c - 1, c, c + 1, U64):
+        if x <= xx <= U64:
+            res.add(one(xx))
+    if len(res) > 1 or None in res:
+        return None
+    return res.pop()
+
+
+def consts_in(sym, acc=None):
+    acc = set() if acc is None else acc
+    if sym[0] == "const":
+        acc.add(sym[1])
+    elif sym[0] in ("cmp",):
+        consts_in(sym[2], acc)
+        consts_in(sym[3], acc)
+    elif sym[0] in ("and", "or"):
+        consts_in(sym[1], acc)
+        consts_in(sym[2], acc)
+    elif sym[0] == "not":
+        consts_in(sym[1], acc)
+    return acc
+
+
+def ev_key(sym, key, v):
+    """ev() under the key's semantics (see _cmp_key for upward keys)."""
+    return ev(sym, key, v)
 
 
 def compare(op, x, c):
@@ -285,10 +325,10 @@ class Program:
         ins = self.prog[k]
         op = ins[0]
         if op == "assert":
-            t = ev(self.top_at[k], key, v)
+            t = ev_key(self.top_at[k], key, v)
             return [] if t is False else [("pc", k + 1)]
         if op in ("bz", "bnz"):
-            t = ev(self.top_at[k], key, v)
+            t = ev_key(self.top_at[k], key, v)
             jump = ("pc", self.labels[ins[1]])
             fall = ("pc", k + 1)
             if t is None:
@@ -299,7 +339,7 @@ class Program:
             top = self.top_at[k]
             if top[0] == "const":
                 return [] if top[1] == 0 else [("accept",)]
-            t = ev(top, key, v)
+            t = ev_key(top, key, v)
             return [] if t is False else [("accept",)]
         if op == "err":
             return []
